@@ -328,6 +328,19 @@ pub fn inputs_c19(r: &mut Rng, n: usize, _tier: &str, out: &mut dyn Write) {
                     writeln!(out, "fmt_back {} {}", hexfmt(&f), epoch_c19(r, ts2, false)).unwrap();
                 }
             }
+            38 if r.chance(1, 2) => {
+                // the epoch's scale printed by a final %T: any scale (the text determines the epoch)
+                let mut toks: Vec<char> = NUMERIC.to_vec();
+                shuffle(r, &mut toks);
+                let mut f = String::new();
+                for t in toks.iter() {
+                    f.push('%');
+                    f.push(*t);
+                    f.push(pick_sep(r, false));
+                }
+                f.push_str("%T");
+                writeln!(out, "fmt_back {} {}", hexfmt(&f), epoch_c19(r, ts, false)).unwrap();
+            }
             38 => {
                 // numeric tokens only (and %j), at least one separator after each: the class that parses back
                 let mut toks: Vec<char> = NUMERIC.to_vec();
@@ -383,6 +396,9 @@ struct Fields {
     ns: i64,
     ts: TimeScale,
     off_min: i64,
+    /// day of year / weekday shift written instead of the true ones (out-of-range texts)
+    doy_o: Option<i64>,
+    wd_shift: usize,
 }
 
 fn pick_fields(r: &mut Rng) -> Fields {
@@ -400,13 +416,56 @@ fn pick_fields(r: &mut Rng) -> Fields {
         ns,
         ts: scale(r),
         off_min: (pick_offset(r) / MIN) as i64,
+        doy_o: None,
+        wd_shift: 0,
+    }
+}
+
+/// push one or two fields out of range (or onto the edge of the range): the texts C13 wants rejected
+fn spoil(r: &mut Rng, f: &mut Fields) {
+    f.y = f.y.clamp(1, 9999);
+    let k = if r.chance(1, 5) { 2 } else { 1 };
+    for _ in 0..k {
+        match r.below(12) {
+            0 => f.m = *r.pick(&[13i64, 14, 0, 20, 99]),
+            1 => f.d = month_len(f.y, f.m.clamp(1, 12)) + 1,
+            2 => f.d = *r.pick(&[0i64, 32, 33, 99]),
+            3 => f.h = *r.pick(&[24i64, 25, 30, 99]),
+            4 => f.mi = *r.pick(&[60i64, 61, 99]),
+            5 => f.s = *r.pick(&[61i64, 62, 99]),
+            6 => f.s = 60,
+            7 => {
+                // a leap second where there is one, or the same time on a day without
+                f.h = 23;
+                f.mi = 59;
+                f.s = 60;
+                if r.chance(1, 2) {
+                    let (y, m, d) = *r.pick(&[(2016i64, 12i64, 31i64), (2015, 6, 30), (1998, 12, 31), (2012, 6, 30)]);
+                    f.y = y;
+                    f.m = m;
+                    f.d = d;
+                }
+            }
+            8 => f.doy_o = Some(*r.pick(&[0i64, 366, 367, 400, 999])),
+            9 => {
+                // the last day of the year and the one after it
+                let leap = month_len(f.y, 2) == 29;
+                f.doy_o = Some(if leap { *r.pick(&[366i64, 367]) } else { *r.pick(&[365i64, 366]) });
+            }
+            10 => f.wd_shift = 1 + r.below(6) as usize,
+            _ => {
+                // 29-31 February
+                f.m = 2;
+                f.d = 29 + r.below(3) as i64;
+            }
+        }
     }
 }
 
 /// the text a token stands for, rendered by the generator itself
 fn render_token(r: &mut Rng, t: char, f: &Fields) -> String {
-    let doy = days_from_1900(f.y.clamp(1, 9999), f.m, f.d) - days_from_1900(f.y.clamp(1, 9999), 1, 1) + 1;
-    let wd = days_from_1900(f.y.clamp(1, 9999), f.m, f.d).rem_euclid(7) as usize;
+    let doy = f.doy_o.unwrap_or(days_from_1900(f.y.clamp(1, 9999), f.m, f.d) - days_from_1900(f.y.clamp(1, 9999), 1, 1) + 1);
+    let wd = (days_from_1900(f.y.clamp(1, 9999), f.m, f.d).rem_euclid(7) as usize + f.wd_shift) % 7;
     match t {
         'Y' => format!("{:04}", f.y),
         'y' => match r.below(4) {
@@ -433,8 +492,8 @@ fn render_token(r: &mut Rng, t: char, f: &Fields) -> String {
         },
         'A' => WD_LONG[wd].to_string(),
         'a' => WD_SHORT[wd].to_string(),
-        'B' => MO_LONG[(f.m - 1) as usize].to_string(),
-        'b' => MO_SHORT[(f.m - 1) as usize].to_string(),
+        'B' => MO_LONG[(f.m.clamp(1, 12) - 1) as usize].to_string(),
+        'b' => MO_SHORT[(f.m.clamp(1, 12) - 1) as usize].to_string(),
         'T' => ts2s(f.ts).to_string(),
         'w' => format!("{}", (wd + 1) % 7),
         'z' => format!("{}{:02}:{:02}", if f.off_min < 0 { '-' } else { '+' }, f.off_min.abs() / 60, f.off_min.abs() % 60),
@@ -459,6 +518,79 @@ fn matching_pair(r: &mut Rng, toks: &[char], wide: bool) -> (String, String) {
         }
     }
     (fmt, inp)
+}
+
+/// the text of `fields` for a format string (tokens `%X` and separators taken literally)
+fn render_for(r: &mut Rng, fmt: &str, f: &Fields) -> String {
+    let mut out = String::new();
+    let mut it = fmt.chars().peekable();
+    while let Some(c) = it.next() {
+        if c == '%' {
+            if let Some(t) = it.next() {
+                out.push_str(&render_token(r, t, f));
+            }
+        } else if c != '?' {
+            out.push(c);
+        }
+    }
+    out
+}
+
+const CONST_STRINGS: [(&str, &str); 9] = [
+    ("ISO8601", "%Y-%m-%dT%H:%M:%S.%f %T"),
+    ("ISO8601_FLEX", "%Y-%m-%dT%H:%M:%S.%f %T"),
+    ("RFC3339", "%Y-%m-%dT%H:%M:%S.%f%z"),
+    ("RFC3339_FLEX", "%Y-%m-%dT%H:%M:%S.%f%z"),
+    ("ISO8601_DATE", "%Y-%m-%d"),
+    ("ISO8601_ORDINAL", "%Y-%j"),
+    ("RFC2822", "%a, %d %b %Y %H:%M:%S"),
+    ("RFC2822_LONG", "%A, %d %B %Y %H:%M:%S"),
+    ("ISO8601_STD", "%Y-%m-%dT%H:%M:%S.%f"),
+];
+
+/// a readable format (separators of the probe alphabet, at least one after each token) and a text that
+/// matches it with valid or out-of-range fields: `%f` always nine digits, `%j` three
+fn range_pair(r: &mut Rng, spoiled: bool) -> (String, String) {
+    let mut toks: Vec<char> = match r.below(6) {
+        0 => vec!['Y', 'm', 'd'],
+        1 => vec!['Y', 'j'],
+        2 => vec!['Y', 'j', 'H', 'M', 'S'],
+        3 => vec!['A', 'd', 'B', 'Y', 'H', 'M', 'S'],
+        _ => full_tokens(r),
+    };
+    if r.chance(1, 4) {
+        shuffle(r, &mut toks);
+    }
+    let mut fmt = String::new();
+    for (i, t) in toks.iter().enumerate() {
+        fmt.push('%');
+        fmt.push(*t);
+        if i + 1 < toks.len() {
+            fmt.push(*r.pick(&[' ', '-', '/', ':', '.', ',', '_', '|', ';', '@', '#']));
+            if r.chance(1, 6) {
+                fmt.push(' ');
+            }
+        }
+    }
+    let mut f = pick_fields(r);
+    f.y = f.y.clamp(1, 9999);
+    if spoiled {
+        spoil(r, &mut f);
+    }
+    let mut text = String::new();
+    let mut it = fmt.chars().peekable();
+    while let Some(c) = it.next() {
+        if c == '%' {
+            let t = it.next().unwrap();
+            text.push_str(&match t {
+                'f' => format!("{:09}", f.ns),
+                _ => render_token(r, t, &f),
+            });
+        } else {
+            text.push(c);
+        }
+    }
+    (fmt, text)
 }
 
 const ODD_CHARS: [&str; 24] = [
@@ -593,6 +725,28 @@ fn boundary_block_c13f(out: &mut dyn Write) {
 pub fn inputs_c13f(r: &mut Rng, n: usize, _tier: &str, out: &mut dyn Write) {
     boundary_block_c13f(out);
     for _ in 0..n {
+        if r.chance(1, 6) {
+            // well-formed texts with fields in and out of range (C13: rejected, never another date)
+            let spoiled = r.chance(3, 4);
+            if r.chance(1, 4) {
+                let (name, fs) = *r.pick(&CONST_STRINGS);
+                let mut fl = pick_fields(r);
+                fl.y = fl.y.clamp(1, 9999);
+                if spoiled {
+                    spoil(r, &mut fl);
+                }
+                let text = render_for(r, fs, &fl);
+                writeln!(out, "p_constparse {} {}", name, str2hex(&text)).unwrap();
+            } else {
+                let (f, s) = range_pair(r, spoiled);
+                if r.chance(1, 3) {
+                    writeln!(out, "p_fmtstr {} {}", str2hex(&s), hexfmt(&f)).unwrap();
+                } else {
+                    writeln!(out, "p_fmtparse {} {}", hexfmt(&f), str2hex(&s)).unwrap();
+                }
+            }
+            continue;
+        }
         let toks = c13f_tokens(r);
         let wide = r.chance(1, 3);
         let (mut f, mut s) = matching_pair(r, &toks, wide);
